@@ -69,7 +69,7 @@ package revocation
 //@   assigns revocation.CertRevocationValidator.ModeParsed, revocation.CertRevocationValidator.OCSPConfig, H.config.CRLConfig, H.config.CDPConfig, H.config.OCSPConfig, fresh:E.*x509.Certificate, X.fs
 //@   ensures[C03,C19] mode_is_parsed: err == nil ==> modeParsed(certRevocationValidator)
 //@   ensures[C19] ocsp_config_exists: err == nil ==> certRevocationValidator.OCSPConfig != nil && certsNonNil(certRevocationValidator.OCSPConfig.TrustedResponderCerts)
-//@   ensures[C19] crl_config_parsed: err == nil && certRevocationValidator.CRLConfig != nil ==> certRevocationValidator.CRLConfig.CDPConfig != nil && certsNonNil(certRevocationValidator.CRLConfig.TrustedSignatureCerts)
+//@   ensures[C19] crl_config_parsed: err == nil && certRevocationValidator.CRLConfig != nil ==> certRevocationValidator.CRLConfig.CDPConfig != nil && certsNonNil(certRevocationValidator.CRLConfig.TrustedSignatureCerts) && certRevocationValidator.CRLConfig.UpdateIntervalParsed > 0
 //@   ensures err == nil ==> certRevocationValidator.logger == old(certRevocationValidator.logger) && certRevocationValidator.crlRevocationChecker == old(certRevocationValidator.crlRevocationChecker) && certRevocationValidator.ocspRevocationChecker == old(certRevocationValidator.ocspRevocationChecker) && certRevocationValidator.CRLConfig == old(certRevocationValidator.CRLConfig)
 
 //@ spec func crlConfigFieldsOK(c ref) bool = c != nil
@@ -189,8 +189,11 @@ package revocation
 //@ func parseConfigEntryFromCaddyfile
 //@   constructor
 //@   props C19
-//@   requires d != nil
-//@   assigns X.dval, H.config.CRLConfig, H.config.CDPConfig, H.config.OCSPConfig, E.string
+//@   requires d != nil && certRevocationValidatorConfig != nil
+//@   assigns *certRevocationValidatorConfig, X.dval, H.config.CRLConfig, H.config.CDPConfig, H.config.OCSPConfig, E.string
+//@   ensures[C19] mode_option_touches_nothing_else: key == "mode" ==> certRevocationValidatorConfig.CRLConfig == old(certRevocationValidatorConfig.CRLConfig) && certRevocationValidatorConfig.OCSPConfig == old(certRevocationValidatorConfig.OCSPConfig)
+//@   ensures[C19] crl_block_touches_nothing_else: key == "crl_config" ==> certRevocationValidatorConfig.Mode == old(certRevocationValidatorConfig.Mode) && certRevocationValidatorConfig.OCSPConfig == old(certRevocationValidatorConfig.OCSPConfig)
+//@   ensures[C19] ocsp_block_touches_nothing_else: key == "ocsp_config" ==> certRevocationValidatorConfig.Mode == old(certRevocationValidatorConfig.Mode) && certRevocationValidatorConfig.CRLConfig == old(certRevocationValidatorConfig.CRLConfig)
 //@   ensures[C19] mode_option_is_recorded: key == "mode" && !r2 ==> certRevocationValidatorConfig.Mode == $dval[d]
 //@   ensures[C19] crl_block_is_recorded: key == "crl_config" && !r2 ==> called(parseCaddyfileCRLConfig#1) && certRevocationValidatorConfig.CRLConfig == res(parseCaddyfileCRLConfig#1, 0)
 //@   ensures[C19] ocsp_block_is_recorded: key == "ocsp_config" && !r2 ==> called(parseCaddyfileOCSPConfig#1) && certRevocationValidatorConfig.OCSPConfig == res(parseCaddyfileOCSPConfig#1, 0)
@@ -200,8 +203,16 @@ package revocation
 //@ func parseCaddyFileCrlConfigEntry
 //@   constructor
 //@   props C19
-//@   requires d != nil
-//@   assigns X.dval, H.config.CDPConfig, E.string
+//@   requires d != nil && crlConfig != nil
+//@   assigns *crlConfig, X.dval, H.config.CDPConfig, E.string
+//@   ensures[C19] update_interval_is_recorded: old($dval[d]) == "update_interval" && !r2 ==> crlConfig.UpdateInterval == $dval[d]
+//@   ensures[C19] signature_mode_is_recorded: old($dval[d]) == "signature_validation_mode" && !r2 ==> crlConfig.SignatureValidationMode == $dval[d]
+//@   ensures[C19] cdp_block_is_recorded: old($dval[d]) == "cdp_config" && !r2 ==> called(parseCaddyfileCRLCDPConfig#1) && crlConfig.CDPConfig == res(parseCaddyfileCRLCDPConfig#1, 0)
+//@   ensures[C19] crl_url_is_appended: old($dval[d]) == "crl_url" && !r2 ==> len(crlConfig.CRLUrls) == old(len(crlConfig.CRLUrls)) + 1 && crlConfig.CRLUrls[len(crlConfig.CRLUrls) - 1] == $dval[d]
+//@   ensures[C19] crl_file_is_appended: old($dval[d]) == "crl_file" && !r2 ==> len(crlConfig.CRLFiles) == old(len(crlConfig.CRLFiles)) + 1 && crlConfig.CRLFiles[len(crlConfig.CRLFiles) - 1] == $dval[d]
+//@   ensures[C19] signer_file_is_appended: old($dval[d]) == "trusted_signature_cert_file" && !r2 ==> len(crlConfig.TrustedSignatureCertsFiles) == old(len(crlConfig.TrustedSignatureCertsFiles)) + 1 && crlConfig.TrustedSignatureCertsFiles[len(crlConfig.TrustedSignatureCertsFiles) - 1] == $dval[d]
+//@   ensures[C19] unknown_option_rejected: old($dval[d]) != "work_dir" && old($dval[d]) != "cdp_config" && old($dval[d]) != "storage_type" && old($dval[d]) != "update_interval" && old($dval[d]) != "signature_validation_mode" && old($dval[d]) != "crl_url" && old($dval[d]) != "crl_file" && old($dval[d]) != "trusted_signature_cert_file" ==> r2 && r1 != nil
+//@   ensures[C19] work_dir_touches_nothing_else: old($dval[d]) == "work_dir" ==> crlConfig.StorageType == old(crlConfig.StorageType) && crlConfig.UpdateInterval == old(crlConfig.UpdateInterval) && crlConfig.SignatureValidationMode == old(crlConfig.SignatureValidationMode) && crlConfig.CDPConfig == old(crlConfig.CDPConfig)
 //@   ensures r2 ==> r1 != nil
 //@   ensures[C19] work_dir_is_recorded: old($dval[d]) == "work_dir" && !r2 ==> crlConfig.WorkDir == $dval[d]
 //@   ensures[C19] storage_type_is_recorded: old($dval[d]) == "storage_type" && !r2 ==> crlConfig.StorageType == $dval[d]
